@@ -1,5 +1,5 @@
 /*
- * C01 family 1 (E-roundtrip): encode a symbolic message in up to 3 pushes under a
+ * C01 family 1 (E-roundtrip): encode a symbolic message in up to PUSHES pushes under a
  * symbolic output-capacity schedule, terminate, check the frame shape, decode the
  * frame in place with the matching decoder, compare with the message.
  * -DENC=<encoder> -DDEC=<decoder>; N = message bound.
@@ -12,6 +12,9 @@
 #ifndef N
 # define N 5
 #endif
+#ifndef PUSHES
+# define PUSHES 2
+#endif
 #define CAPMAX (2 * N + 6)
 
 static uint8_t out[CAPMAX + 4];
@@ -22,7 +25,7 @@ static void push(MPT_STRUCT(encode_state) *st, const uint8_t *data, size_t len, 
 {
 	size_t off = 0;
 	int tries;
-	for (tries = 0; tries < 3; tries++) {
+	for (tries = 0; tries < 2; tries++) {
 		struct iovec to, from;
 		ssize_t r;
 		to.iov_base = out; to.iov_len = *cap;
@@ -59,8 +62,13 @@ void harness(void)
 	for (i = 0; i < N; i++) if (i < n) V_ASSUME(m[i] != 0);
 #endif
 	if (s1) push(&st, m, s1, &cap);
+#if PUSHES >= 3
 	if (s2 > s1) push(&st, m + s1, s2 - s1, &cap);
 	if (n > s2) push(&st, m + s2, n - s2, &cap);
+#else
+	V_ASSUME(s2 == s1);
+	if (n > s1) push(&st, m + s1, n - s1, &cap);
+#endif
 	/* terminate */
 	to.iov_base = out; to.iov_len = cap;
 	r = ENC(&st, &to, 0);
